@@ -405,7 +405,9 @@ func c06Props() []c06Prop {
 	}, "a@0,b@5,c@6,z@0")
 	add("decimal64/fraction-digits", `leaf l { type decimal64 { fraction-digits 7; } }`, func(m *meta.Module) string { return fmt.Sprint(leafOf(m, "l").(*meta.Leaf).Type().FractionDigits()) }, "7")
 	add("leafref/path", `leaf a { type string; } leaf l { type leafref { path "../a"; } }`, func(m *meta.Module) string { return leafOf(m, "l").(*meta.Leaf).Type().Path() }, "../a")
-	add("range/text", `leaf l { type int32 { range "1..3 | 7"; } }`, func(m *meta.Module) string { return strings.ReplaceAll(leafOf(m, "l").(*meta.Leaf).Type().Range()[0].String(), " ", "") }, "1..3|7")
+	add("range/text", `leaf l { type int32 { range "1..3 | 7"; } }`, func(m *meta.Module) string {
+		return strings.ReplaceAll(leafOf(m, "l").(*meta.Leaf).Type().Range()[0].String(), " ", "")
+	}, "1..3|7")
 	add("revisions/latest-first", `revision 2021-01-01; revision 2020-01-01;`, func(m *meta.Module) string {
 		var s []string
 		for _, r := range m.RevisionHistory() {
@@ -594,7 +596,7 @@ func (p *c06) Run(raw json.RawMessage) eng.Result {
 func c06Ext(res *eng.Result, ss *sigSet) {
 	type host struct {
 		name, text string
-		get  func(m *meta.Module) []*meta.Extension
+		get        func(m *meta.Module) []*meta.Extension
 	}
 	hdr := c06Hdr + `revision 0; extension e { argument a; } extension n; `
 	hosts := []host{
@@ -611,8 +613,12 @@ func c06Ext(res *eng.Result, ss *sigSet) {
 		{"typedef", hdr + `typedef t { type string; EXT } }`, func(m *meta.Module) []*meta.Extension { return m.Typedefs()["t"].Extensions() }},
 		{"identity", hdr + `identity i { EXT } }`, func(m *meta.Module) []*meta.Extension { return m.Identities()["i"].Extensions() }},
 		{"feature", hdr + `feature f { EXT } }`, func(m *meta.Module) []*meta.Extension { return m.Features()["f"].Extensions() }},
-		{"must", hdr + `container c { must "x" { EXT } } }`, func(m *meta.Module) []*meta.Extension { return leafOf(m, "c").(*meta.Container).Musts()[0].Extensions() }},
-		{"enum", hdr + `leaf l { type enumeration { enum a { EXT } } } }`, func(m *meta.Module) []*meta.Extension { return leafOf(m, "l").(*meta.Leaf).Type().Enums()[0].Extensions() }},
+		{"must", hdr + `container c { must "x" { EXT } } }`, func(m *meta.Module) []*meta.Extension {
+			return leafOf(m, "c").(*meta.Container).Musts()[0].Extensions()
+		}},
+		{"enum", hdr + `leaf l { type enumeration { enum a { EXT } } } }`, func(m *meta.Module) []*meta.Extension {
+			return leafOf(m, "l").(*meta.Leaf).Type().Enums()[0].Extensions()
+		}},
 		{"revision", c06Hdr + `extension e { argument a; } extension n; revision 2020-01-01 { EXT } }`, func(m *meta.Module) []*meta.Extension { return m.Revision().Extensions() }},
 		{"description-substatement", hdr + `container c { description "d" { EXT } } }`, func(m *meta.Module) []*meta.Extension { return leafOf(m, "c").(meta.Meta).Extensions() }},
 		{"units-substatement", hdr + `leaf l { type string; units "u" { EXT } } }`, func(m *meta.Module) []*meta.Extension { return leafOf(m, "l").(meta.Meta).Extensions() }},
